@@ -190,7 +190,7 @@ def _register_extension(
         )
     # We need to validate all properties related to this extension
     combined_props = dict(new_extension._properties, **(tl_props or dict()))
-    _validate_props(combined_props, version)
+    _validate_props(combined_props, version, is_observable20=version == "2.0")
 
     EXT_MAP = registry.STIX2_OBJ_MAPS[version]['extensions']
 
